@@ -213,6 +213,12 @@ func parseIncremental(out string, todo []*Obligation, elapsed float64) {
 		}
 		res := strings.TrimSpace(out[bi+len(b) : mi])
 		res = strings.Trim(res, "\"\n ")
+		prefixEnd := bi
+		if strings.Contains(out[:prefixEnd], "(error") && !incrementalErrorsBenign(out[:prefixEnd]) {
+			o.Status = "unknown"
+			o.Output = "solver reported an error earlier in the script: " + firstErrorLine(out[:prefixEnd])
+			continue
+		}
 		model := strings.TrimSpace(out[mi+len(m) : ei])
 		o.Secs = per
 		o.Solver = "z3-5.1.0-noext"
@@ -309,6 +315,10 @@ var solvers = []solverDef{
 
 // portfolioScript races the solvers on a single obligation.
 func portfolioScript(j *Job, o *Obligation, script string, cfg SolverCfg) {
+	if cfg.Keep {
+		os.MkdirAll(cfg.Dir, 0o755)
+		os.WriteFile(filepath.Join(cfg.Dir, sanitizeFile(o.Name)+".smt2"), []byte(script), 0o644)
+	}
 	type res struct {
 		solver, out string
 		secs        float64
@@ -427,6 +437,10 @@ func solverAnswer(out string) (string, string) {
 	lines := strings.Split(out, "\n")
 	for i, l := range lines {
 		t := strings.TrimSpace(l)
+		if strings.HasPrefix(t, "(error") && !strings.Contains(t, "model is not available") && !strings.Contains(t, "Cannot get value") {
+			// a malformed script proves nothing
+			return "", out
+		}
 		if t == "sat" || t == "unsat" || t == "unknown" {
 			return t, strings.Join(lines[i+1:], "\n")
 		}
@@ -462,4 +476,22 @@ func satTrusted(name string) bool {
 		}
 	}
 	return false
+}
+
+func incrementalErrorsBenign(s string) bool {
+	for _, l := range strings.Split(s, "\n") {
+		if strings.Contains(l, "(error") && !strings.Contains(l, "model is not available") {
+			return false
+		}
+	}
+	return true
+}
+
+func firstErrorLine(s string) string {
+	for _, l := range strings.Split(s, "\n") {
+		if strings.Contains(l, "(error") && !strings.Contains(l, "model is not available") {
+			return strings.TrimSpace(l)
+		}
+	}
+	return ""
 }
